@@ -215,6 +215,10 @@ Verdict(pre, line, post) ==
   LET ev == line.ev
       args == line.args IN
   IF "exc" \in DOMAIN line THEN [fail |-> {"exc"}, ex |-> {}]
+  \* the node monitor handled a tombstone between two file-system probes of a handler (args: handler,
+  \* its argument, instance, generation): not a step of the model (its handlers are atomic); judged by
+  \* the state clause only - whatever the interleaving, no container may end up behind two links
+  ELSE IF ev = "Meddled" THEN [fail |-> F("C13.oneLink", M!C13oneLink(pre, post)), ex |-> {"C13", "meddled"}]
   ELSE IF ~Enabled(pre, ev, args) THEN [fail |-> {"drift.enabled"}, ex |-> {}]
   ELSE
   LET kind == Kind(pre, ev, args)
